@@ -1,0 +1,54 @@
+//go:build verif
+
+// Verification hooks of the lockset / total work packages (build tag `verif` only; add-only file, nothing
+// here is compiled into the product): thin wrappers around the private entry points that the daemon runs
+// on its own goroutines (resync pass, release-event unbind, pod-IP sync pass, config-map poll), and a setter
+// for the cloud provider.  Nothing else.
+package schedulerplugin
+
+import (
+	corev1 "k8s.io/api/core/v1"
+	"tkestack.io/galaxy/pkg/ipam/cloudprovider"
+)
+
+// VerifLsResyncPod runs one resync pass (what the wait.Until goroutine of Run does every ResyncInterval).
+func (p *FloatingIPPlugin) VerifLsResyncPod() error { return p.resyncPod() }
+
+// VerifLsSyncPodIPsIntoDB runs the pod-IP sync pass of the same goroutine.
+func (p *FloatingIPPlugin) VerifLsSyncPodIPsIntoDB() { p.syncPodIPsIntoDB() }
+
+// VerifLsSyncPodIP runs syncPodIP for one pod object.
+func (p *FloatingIPPlugin) VerifLsSyncPodIP(pod *corev1.Pod) error { return p.syncPodIP(pod) }
+
+// VerifLsUnbind runs one unbind for the given pod object (what loop() does for a release event).
+func (p *FloatingIPPlugin) VerifLsUnbind(pod *corev1.Pod) error { return p.unbind(pod) }
+
+// VerifLsUpdateConfigMap runs one poll of the floatingip ConfigMap (the config poller goroutine of Run).
+func (p *FloatingIPPlugin) VerifLsUpdateConfigMap() (bool, error) { return p.updateConfigMap() }
+
+// VerifLsEnsureIPAMConf feeds one configuration text to ensureIPAMConf with a caller-owned "last" string.
+func (p *FloatingIPPlugin) VerifLsEnsureIPAMConf(last *string, conf string) (bool, error) {
+	return p.ensureIPAMConf(last, conf)
+}
+
+// VerifLsSetCloudProvider sets the cloud provider (before the plugin is used concurrently).
+func (p *FloatingIPPlugin) VerifLsSetCloudProvider(c cloudprovider.CloudProvider) {
+	p.cloudProvider = c
+}
+
+// VerifLsParsePodIndex exposes parsePodIndex (index suffix of a stateful pod name).
+func VerifLsParsePodIndex(name string) (int, error) { return parsePodIndex(name) }
+
+// VerifLsDrainUnreleased takes the queued release events off the internal channel (nobody consumes it when Run was
+// not called) and returns how many there were.
+func (p *FloatingIPPlugin) VerifLsDrainUnreleased() int {
+	n := 0
+	for {
+		select {
+		case <-p.unreleased:
+			n++
+		default:
+			return n
+		}
+	}
+}
